@@ -1,5 +1,138 @@
-/- C07 — theorems under construction. -/
-import BEI.Model.App
+/-
+  C07 — The context registry mirrors the components present in the world, for every history of spawn, insert, remove,
+  despawn, re-insert and rebuild (issued between frames, through commands or from observers) interleaved with frames.
+-/
+import BEI.Proofs.Mirror
 namespace BEI.Props.C07
-theorem placeholder_true : True := trivial
+open BEI
+
+/-- looking a context up succeeds exactly for the holders recorded in the registry's shape -/
+theorem get_iff_memS (reg : Registry) (hwf : ShapeWF (shape reg)) (c e : Nat) :
+    (reg.get c e).isSome ↔ memS (shape reg) c e := by
+  unfold Registry.get
+  constructor
+  · intro h
+    cases hi : reg.index c with
+    | none => simp [hi] at h
+    | some gi =>
+      obtain ⟨g, hg, hgid⟩ := index_spec reg c gi hi
+      simp only [hi, hg] at h
+      refine ⟨(g.ty, g.entities), ?_, hgid, ?_⟩
+      · simp only [shape, List.mem_map]; exact ⟨g, List.mem_of_getElem? hg, rfl⟩
+      · cases g with
+        | exclusive ty is =>
+          simp only [Option.isSome_map] at h
+          obtain ⟨p, hp⟩ := Option.isSome_iff_exists.mp h
+          have hm := List.mem_of_find?_eq_some hp
+          have hpe := List.find?_some hp
+          simp only [beq_iff_eq] at hpe
+          simp only [Group.entities, List.mem_map]
+          exact ⟨p, hm, hpe⟩
+        | shared ty es ctx =>
+          simp only at h
+          split at h
+          · rename_i hc; simpa [Group.entities] using hc
+          · simp at h
+  · rintro ⟨p, hp, hpid, hpe⟩
+    simp only [shape, List.mem_map] at hp
+    obtain ⟨g, hg, rfl⟩ := hp
+    -- the group found by `index` is this one (one group per type)
+    have hex : ∃ x ∈ reg, (fun g : Group => g.ty.id == c) x = true := ⟨g, hg, by simpa using hpid⟩
+    have hlt := List.findIdx_lt_length_of_exists hex
+    have hidx : reg.index c = some (reg.findIdx (fun g => g.ty.id == c)) := by
+      simp [Registry.index, hlt]
+    obtain ⟨g', hg', hgid'⟩ := index_spec reg c _ hidx
+    obtain ⟨j, hj⟩ := List.getElem?_of_mem hg
+    have hsame : reg.findIdx (fun g => g.ty.id == c) = j := by
+      apply idx_unique (shape reg) hwf.types _ _ (g'.ty, g'.entities) (g.ty, g.entities)
+      · simp [shape, hg']
+      · simp [shape, hj]
+      · simp only; rw [hgid', hpid]
+    rw [hsame] at hg'
+    rw [hj] at hg'
+    cases hg'
+    simp only [hidx, hsame, hj]
+    cases g with
+    | exclusive ty is =>
+      simp only [Group.entities, List.mem_map] at hpe
+      obtain ⟨q, hq, hqe⟩ := hpe
+      simp only [Option.isSome_map]
+      rw [List.find?_isSome]
+      exact ⟨q, hq, by simpa using hqe⟩
+    | shared ty es ctx =>
+      have hmem : e ∈ es := by simpa [Group.entities] using hpe
+      simp [hmem]
+
+/-- (1) the registry mirrors the world in every reachable state: `ContextInstances::get::<C>(e)` is `Some` exactly
+    when entity `e` currently holds component `C` -/
+theorem registry_mirrors_world (su : Setup) (st : AppState) (h : Reachable su st) (c e : Nat) :
+    (st.reg.get c e).isSome ↔ st.world.has e c = true := by
+  have hm := reachable_pred su Mirror (mirror_appPred su) mirror_init st h
+  rw [get_iff_memS st.reg hm.wf, hm.mirror]
+
+/-- (2) structure of every reachable registry: one group per context type, no empty group, no entity twice in a group -/
+theorem registry_wellformed (su : Setup) (st : AppState) (h : Reachable su st) : ShapeWF (shape st.reg) :=
+  (reachable_pred su Mirror (mirror_appPred su) mirror_init st h).wf
+
+/-- (3) shared mode: the group — and with it the common instance — exists exactly while at least one holder exists -/
+theorem shared_exists_iff_holder (su : Setup) (st : AppState) (h : Reachable su st) (c : Nat) :
+    (st.reg.index c).isSome ↔ ∃ e, st.world.has e c = true := by
+  have hm := reachable_pred su Mirror (mirror_appPred su) mirror_init st h
+  constructor
+  · intro hi
+    obtain ⟨gi, hgi⟩ := Option.isSome_iff_exists.mp hi
+    obtain ⟨g, hg, hgid⟩ := index_spec st.reg c gi hgi
+    have hne := hm.wf.nonempty (g.ty, g.entities) (by simp only [shape, List.mem_map]; exact ⟨g, List.mem_of_getElem? hg, rfl⟩)
+    cases hents : g.entities with
+    | nil => exact absurd hents hne
+    | cons e es =>
+      refine ⟨e, (hm.mirror c e).mp ⟨(g.ty, g.entities), ?_, hgid, by simp [hents]⟩⟩
+      simp only [shape, List.mem_map]; exact ⟨g, List.mem_of_getElem? hg, rfl⟩
+  · rintro ⟨e, he⟩
+    obtain ⟨p, hp, hpid, _⟩ := (hm.mirror c e).mpr he
+    simp only [shape, List.mem_map] at hp
+    obtain ⟨g, hg, rfl⟩ := hp
+    have hex : ∃ x ∈ st.reg, (fun g : Group => g.ty.id == c) x = true := ⟨g, hg, by simpa using hpid⟩
+    have hlt := List.findIdx_lt_length_of_exists hex
+    simp [Registry.index, hlt]
+
+/-- (4) a holder arriving when no group of its type exists gets an instance built for it from scratch
+    (`context_instance(world, entity)`), in a new group inserted at the priority position; a holder joining an existing
+    shared group shares the existing instance, and a new exclusive holder gets its own fresh instance -/
+theorem add_builds_fresh (reg : Registry) (mk : Factory) (ty : CtxType) (e : Nat) (h : reg.index ty.id = none) :
+    reg.add mk ty e = reg.take (reg.insertPos ty.priority)
+      ++ [if ty.shared then Group.shared ty [e] (mk ty.id e) else Group.exclusive ty [(e, mk ty.id e)]]
+      ++ reg.drop (reg.insertPos ty.priority) := by
+  simp [Registry.add, h]
+
+theorem add_joins_existing (reg : Registry) (mk : Factory) (ty : CtxType) (e : Nat) (i : Nat) (h : reg.index ty.id = some i) :
+    reg.add mk ty e = reg.modify i (fun g =>
+      match g with
+      | .exclusive t is => .exclusive t (is ++ [(e, mk ty.id e)])
+      | .shared t es ctx => .shared t (es ++ [e]) ctx) := by
+  simp only [Registry.add, h]
+  congr 1
+
+/-- the last holder leaving removes the group (so the next holder starts from fresh state, by `add_builds_fresh`) -/
+theorem last_holder_removes_group (su : Setup) (st : AppState) (h : Reachable su st) (t : Tick) (c e : Nat)
+    (reg' : Registry) (dl : List Delivery) (hr : st.reg.remove t c e = some (reg', dl))
+    (hlast : ∀ e', st.world.has e' c = true → e' = e) : reg'.index c = none := by
+  have hm := reachable_pred su Mirror (mirror_appPred su) mirror_init st h
+  obtain ⟨hwf', hm', _⟩ := remove_shape _ _ _ _ _ _ hr hm.wf
+  cases hi : reg'.index c with
+  | none => rfl
+  | some gi =>
+    exfalso
+    obtain ⟨g, hg, hgid⟩ := index_spec reg' c gi hi
+    have hmem : (g.ty, g.entities) ∈ shape reg' := by
+      simp only [shape, List.mem_map]; exact ⟨g, List.mem_of_getElem? hg, rfl⟩
+    have hne := hwf'.nonempty _ hmem
+    cases hents : g.entities with
+    | nil => exact hne hents
+    | cons e' es =>
+      have h1 : memS (shape reg') c e' := ⟨_, hmem, hgid, by simp [hents]⟩
+      obtain ⟨h2, h3⟩ := (hm' c e').mp h1
+      have := hlast e' ((hm.mirror c e').mp h2)
+      exact h3 ⟨rfl, this⟩
+
 end BEI.Props.C07
